@@ -8,7 +8,7 @@
 EXTENDS Backtest, BacktestTraceData     \* BacktestTraceData.tla is generated: TraceLog == << [op, a, s], ... >>
 
 VARIABLE l
-tvars == <<phase, queue, wk, results, begun, ended, best, log, l>>
+tvars == <<phase, queue, wk, results, begun, ended, best, log, run, l>>
 
 TraceInit == Init /\ l = 1
 Ev == TraceLog[l]
